@@ -127,6 +127,10 @@ def main():
     except fw.Broken as e:
         print("BROKEN-CHECK property=%s: %s" % (pid, e))
         sys.exit(2)
+    except Exception:  # a failure of the machinery itself is never a violation
+        import traceback
+        print("BROKEN-CHECK property=%s: internal error\n%s" % (pid, traceback.format_exc()[-3000:]))
+        sys.exit(2)
     sys.exit(rc)
 
 
